@@ -138,7 +138,21 @@ impl<T: Qcow2IoOps> Qcow2Dev<T> {
         l2_table.set(idx, L2Entry(cleared));
         l2_handle.set_dirty(true);
         self.mark_need_flush(true);
+
+        // The host cluster must not become free, and be handed out again, while
+        // the mapping on disk still points to it: refcounts are flushed before
+        // mappings, so one crash in between would leave a reference to a free
+        // (or reused) cluster. Respect the meta update order the same way as
+        // copy-on-write does: refcounts of everything mapped by this slice,
+        // then the slice itself, and only then drop the reference in ram.
+        self.flush_refcount().await?;
+        self.settle_new_meta_cluster(l2_table.get_offset().unwrap())
+            .await?;
+        self.flush_table(&*l2_table, 0, l2_table.byte_size())
+            .await?;
+        l2_handle.set_dirty(false);
         drop(l2_table);
+        self.call_fsync(0, usize::MAX, 0).await?;
 
         // Refcount-release the host cluster(s). For ordinary (non-
         // compressed) entries this is always a single cluster, but we
